@@ -109,6 +109,36 @@ CLAIMED["C18"] = dict(
          "Three genuine defects repaired (F11a, F11b, F18), one recorded (F19). Trusted: Coq kernel; translators gen_skk (rule shapes pinned, classes generated) and gen_skknotes (okurigana table generated; notes grammar and converter text hash-pinned to the hand models Skk/Notes.v, Skk/NotesConv.v); "
          "EUC-JP decoding, line splitting and HashSet de-duplication in the converters' main.rs are not modelled.",
     ref="6a/C18")
+PROTO_NOTE = ("Trusted: Coq kernel; translator gen_protocol (extracts, by scope tracking of guards, the sequence of lock / channel / commit / respond / file operations of every handler and background task "
+              "from chokan-server/src/{main,method,user_pref}.rs; fail-closed on shapes it does not know) -- validated on every run against the running server (lock-site trace / strace); "
+              "std Mutex = mutual exclusion, mpsc FIFO, tokio semantics, the OS file system are assumed, not proved.")
+CLAIMED["C09"] = dict(
+    technique="Coq proof (crash-state semantics of the extracted save program, rename discipline => every crash state is old-or-new) + strace conformance + crash-state materialisation on the real server",
+    text="Kernel-checked: for the save program extracted from save_user_dictionary on every run, and arbitrary old and new contents, in EVERY state a process death can leave (before any operation, inside any write after any number of bytes) "
+         "frequency.bin and user.dic are each exactly the old or exactly the new version (C09_crash_safe, generic in the program: C09_generic; the in-place save before repair F6 is refuted). "
+         "Every run traces a real save with strace and compares it with the extracted program, then materialises every operation boundary and byte-granular partial writes as directories, starts the real server on each and checks the restored state and that saving resumes.",
+    category="proof",
+    note="partial: process death only (no power loss / reordering below the VFS); atomic rename and sequential write are OS assumptions; restoring from complete files and 'saving keeps working' are observed on the implementation for the materialised states, not proved. " + PROTO_NOTE,
+    ref="6/C09")
+CLAIMED["C13"] = dict(
+    technique="Coq proof (worker-counting model over the task table extracted from main.rs) + real server runs under 1..4 runtime workers",
+    text="Kernel-checked: in the task table extracted from main.rs on every run no task that blocks (std mpsc recv / thread::sleep loops) is spawned on an async worker (C13_no_blocking_async_task), hence for every worker count k >= 1 the runtime keeps a worker for requests (C13_serves); "
+         "the state before repair F4 (four blocking async tasks) is refuted for k <= 4. Every run starts the real server with TOKIO_WORKER_THREADS = 1, 2, 3, 4 and default and requires conversions, registrations (updater duty) and periodic saves (saver duty) to happen.",
+    note="partial: tokio's scheduler is modelled as worker counting (a blocking task occupies a worker for ever; spawn_blocking uses its own pool); the duties themselves are observed, not proved. " + PROTO_NOTE,
+    ref="6/C13")
+CLAIMED["C14"] = dict(
+    technique="Coq proof (lock-ranking deadlock freedom and atomic-section theorems over the protocol extracted from the server source) + lock-site trace conformance + concurrent stress with injected delays",
+    text="Kernel-checked: every handler and background task of the protocol extracted on every run acquires the mutexes in one global rank order (C14_protocol_ranked), so no reachable configuration of any number of concurrent handler instances and the tasks is a deadlock (C14_no_deadlock, induction over reachability); "
+         "every read of dictionary+preferences and every commit happens inside one critical section (C14_reads_and_commits_atomic), a registered entry's words are merged in ONE dictionary section (C14_entry_atomic). "
+         "Every run validates the extraction against the lock-site trace of the running server and drives 1..32 concurrent connections with sleeps injected at the lock sites; outcomes must be sequentially explainable.",
+    note="partial: 'every conversion response equals a sequential server's for some admissible state' follows from atomic sections + the sequential model (C05-C08) informally; the linearisation argument itself is not mechanised; interleavings are sampled only to validate the extraction. Fair scheduling assumed for completion. " + PROTO_NOTE,
+    ref="6/C14")
+CLAIMED["C15"] = dict(
+    technique="Coq proof (ordering facts over the extracted handler programs) + real-server confirmation immediately after the response with delays injected",
+    text="Kernel-checked: in both conversion handlers extracted on every run the session is inserted into the store before the response is produced (C15_insert_before_respond, C15_responded_implies_stored; the send-to-recorder-then-respond shape before repair F5 is refuted); "
+         "a registration is sent to the single consuming updater before it is acknowledged (C15_registration_sent_before_ack, C15_single_consumer). Every run confirms candidates the instant the response arrives, with delays injected at the store sites, and checks that each confirmation is counted.",
+    note="partial: mpsc delivery and the updater's liveness are assumptions (observed by quiescing the real server). " + PROTO_NOTE,
+    ref="6/C15")
 PENDING = {}
 
 def main():
